@@ -8,18 +8,23 @@ REPO = os.environ.get("HC_REPO", "/repo")
 
 
 def variants_for(prop):
-    d = os.path.join(ROOT, "selftest")
+    """own one-instance-broken / behaviour-preserving variants (selftest/) and the seeded changes
+    produced by independent sub-agents (seeded/), for the given property"""
     out = []
-    if not os.path.isdir(d):
-        return out
-    for name in sorted(os.listdir(d)):
-        meta = os.path.join(d, name, "meta.json")
-        if os.path.exists(meta):
-            m = json.load(open(meta))
-            if prop in m.get("properties", []):
-                m["name"] = name
-                m["dir"] = os.path.join(d, name)
-                out.append(m)
+    for base in ("selftest", "seeded"):
+        d = os.path.join(ROOT, base)
+        if not os.path.isdir(d):
+            continue
+        for name in sorted(os.listdir(d)):
+            meta = os.path.join(d, name, "meta.json")
+            if os.path.exists(meta) and os.path.exists(os.path.join(d, name, "patch.diff")):
+                m = json.load(open(meta))
+                if prop in m.get("properties", []):
+                    if base == "seeded" and not m.get("detected", True):
+                        continue  # recorded miss: nothing to assert
+                    m["name"] = "%s/%s" % (base, name)
+                    m["dir"] = os.path.join(d, name)
+                    out.append(m)
     return out
 
 
